@@ -34,7 +34,10 @@ private def getNaming (j : Json) : Except String Ops.Naming := do
 private def getStatusKey (j : Json) : Except String Ops.StatusKey :=
   match j.getObjVal? "s" with
   | .ok s => do pure (.strKey (← getStr s))
-  | .error _ => do pure (.intKey (← getInt (← j.getObjVal? "i")))
+  | .error _ =>
+    match j.getObjVal? "i" with
+    | .ok i => do pure (.intKey (← getInt i))
+    | .error _ => do pure (.badKey (← getStr (← j.getObjVal? "b")))
 
 private def getTags (j : Json) : Except String Ops.RawTags :=
   match j with
